@@ -1,7 +1,8 @@
 (* Property C04 - WKB encoding is lossless and decoding is its exact inverse.
    This file contains statements only; proofs are in Proofs/WKB_proofs.v. *)
 From Coq Require Import NArith List Bool.
-From SF Require Import Base.Outcome Base.Bytes Base.GeomAST Model.WKB Proofs.WKB_proofs.
+From SF Require Import Base.Outcome Base.Bytes Base.GeomAST Model.WKB Proofs.WKB_proofs Proofs.WKB_converse.
+From SF Require Proofs.WKB_image.
 Import ListNotations.
 
 (* Round trip at full strength: for every well-formed value g (all 7 types, all 4 coordinate
@@ -37,6 +38,39 @@ Theorem wkb_scan_value : forall (t : gtype) (g : geom),
   scan t (enc g) = if gtype_eqb (geom_type g) t then Ok g else Err EMemberType.
 Proof. exact scan_value_lemma. Qed.
 Print Assumptions wkb_scan_value.
+
+(* ---- the converse direction: "decoding is the exact inverse of encoding" on EVERY accepted document,
+   also foreign ones (mixed byte orders, member types that the constructors normalise).
+   bytes_ok bs: every list element is a byte (< 256); necessary (see Props/C08.v, bytes_ok_needed). ---- *)
+
+(* everything the decoder accepts is a well-formed value (the domain of wkb_roundtrip) *)
+Theorem wkb_decoded_is_wellformed : forall (bs : list N) (g : geom) (r : list N),
+  bytes_ok bs -> dec bs = Ok (g, r) -> wf_wkb g = true /\ bytes_ok r.
+Proof. exact wkb_dec_wf_lemma. Qed.
+Print Assumptions wkb_decoded_is_wellformed.
+
+(* decode . encode . decode = decode, for every byte-order choice of the re-encoding *)
+Theorem wkb_dec_enc_dec : forall bs g r, bytes_ok bs -> dec bs = Ok (g, r) ->
+  forall (bo : list nat -> endian) (r' : list N), dec (enc_bo bo g ++ r') = Ok (g, r').
+Proof. exact wkb_dec_enc_dec_lemma. Qed.
+Print Assumptions wkb_dec_enc_dec.
+
+Theorem wkb_reencode_fixpoint : forall bs g r, bytes_ok bs -> dec bs = Ok (g, r) -> dec (enc g) = Ok (g, []).
+Proof. exact wkb_reencode_fixpoint_lemma. Qed.
+Print Assumptions wkb_reencode_fixpoint.
+
+(* decoded values are determined by their canonical encodings *)
+Theorem wkb_canonical : forall bs bs' g g' r r', bytes_ok bs -> bytes_ok bs' ->
+  dec bs = Ok (g, r) -> dec bs' = Ok (g', r') -> (enc g = enc g' <-> g = g').
+Proof. exact wkb_canonical_lemma. Qed.
+Print Assumptions wkb_canonical.
+
+(* every accepted prefix IS an encoding (under some per-element byte-order choice) of a document tree
+   whose constructor normal form is the decoded value *)
+Theorem wkb_dec_is_some_encoding : forall bs g r, bytes_ok bs -> dec bs = Ok (g, r) ->
+  exists (bo : list nat -> endian) (g' : geom), bs = enc_bo bo g' ++ r /\ g = WKB_image.normalise g'.
+Proof. exact WKB_image.wkb_dec_is_some_encoding_lemma. Qed.
+Print Assumptions wkb_dec_is_some_encoding.
 
 (* non-vacuity: a depth-3 XYZM collection with empty members at several positions, a NaN in M
    and an infinity in Z meets the hypothesis *)
